@@ -11,7 +11,7 @@ import (
 )
 
 const (
-	csStd = "stake"
+	csStd          = "stake"
 	csFeeCollector = "fee_collector"
 )
 
